@@ -681,7 +681,7 @@ def describe(m):
     return {"steps": m["steps_so_far"], "step_index": m["step"]}
 
 
-def run(ctx, prop="C11", pool=POOL, gen=gen_history, rule=None, budget=(40, 450)):
+def run(ctx, prop="C11", pool=POOL, gen=gen_history, rule=None, budget=(40, 250)):
     rng = ctx.rng
     os.makedirs(ctx.scratch.dir, exist_ok=True)   # the runner's widened context shares (and removes) this directory
     n = ctx.budget(*budget)
